@@ -367,6 +367,16 @@ Definition keys_disjoint (p : period_t) : bool :=
               (concat (map (fun l => map v_key (l_vars l)) lays))
   end.
 
+(* ---- times: YYMMDDHH as the reader decodes them ------------------------------------------ *)
+(* ' 1' -> 1, '01' -> 1 (the library replaces blanks by '0' before strptime) *)
+Definition two_digits (a b : Z) : Z :=
+  let d c := if c =? 32 then 0 else if is_digit c then c - 48 else -100 in 10 * d a + d b.
+Definition time_fields (t : list Z) : list Z :=
+  match t with
+  | a :: b :: c :: d :: e :: f :: g :: h :: _ => [two_digits a b; two_digits c d; two_digits e f; two_digits g h]
+  | _ => []
+  end.
+
 (* ---- values: rows of a record, unpacked ------------------------------------------------ *)
 Fixpoint chunks (fuel : nat) (n : nat) (l : list Z) : list (list Z) :=
   match fuel with
@@ -376,6 +386,49 @@ Fixpoint chunks (fuel : nat) (n : nat) (l : list Z) : list (list Z) :=
 Definition rows_of (nx : Z) (data : list Z) : list (list Z) :=
   chunks (length data) (Z.to_nat nx) data.
 
-(* the writer (writearlpackedbit) as it stands: maparlpackedbit(mode='write') unpacks every
-   4-byte layer key as a (level, keys) pair and raises for every input *)
-Definition impl_write_raises : bool := true.
+(* ---- the writer (writearlpackedbit) --------------------------------------------------------
+   Input: an in-memory file = per period a time stamp and per level the height text and the
+   fields (key, rows in the unit, and what pack2d derives from the rows: half quantum h, NEXP,
+   PREC and VAR1 texts).  The writer after fixes/C20-arl-writer-layout.patch packs every field
+   (Model/Arl.v pack_bytes / ksum) and lays the records out as `enc` does, blank padding.
+   (Before that repair maparlpackedbit(mode='write') unpacked every 4-byte layer key as a
+   (level, keys) pair and raised for every input; `writer_repaired` says which of the two the
+   model describes: the repaired one since /repo 6a4afc6.)
+   An in-memory file has one dictionary of variables: the same keys and shapes in every period,
+   no key both 3-D (surface) and 4-D (layer); pack2d chooses the exponent by nexp_rule_fixed. *)
+Record wfield := WField {
+  wf_key : list Z; wf_h : Z; wf_exp : Z; wf_prec : list Z; wf_var1 : list Z; wf_rows : list (list Z) }.
+Record wperiod := WPeriod { wp_time : list Z; wp_levels : list (list Z * list wfield) }.
+Record winput := WInput {
+  wi_grid : list Z; wi_fixed : list Z; wi_nx : Z; wi_ny : Z; wi_vsys2 : list Z; wi_periods : list wperiod }.
+
+Definition write_var (f : wfield) : var_t :=
+  Var (wf_key f) (ksum (pack_bytes (wf_h f) (wf_rows f))) (wf_exp f) (wf_prec f) (wf_var1 f)
+      (concat (pack_bytes (wf_h f) (wf_rows f))).
+Definition write_levels (p : wperiod) : list lvl_t :=
+  map (fun l => Lvl (fst l) (map write_var (snd l))) (wp_levels p).
+Definition write_period (w : winput) (p : wperiod) : period_t :=
+  Period (wp_time p) (wi_grid w) (wi_fixed w) (wi_nx w) (wi_ny w) (wi_vsys2 w)
+    (repeat 32 (Z.to_nat (wi_nx w * wi_ny w - 108 - table_len (write_levels p)))) (write_levels p).
+Definition write_content (w : winput) : list period_t := map (write_period w) (wi_periods w).
+Definition impl_write_fixed (w : winput) : list Z := enc (write_content w).
+
+Definition writer_repaired : bool := true.
+Definition impl_write (w : winput) : option (list Z) :=
+  if writer_repaired then Some (impl_write_fixed w) else None.
+
+Definition wf_wfield (nx ny : Z) (f : wfield) : bool :=
+  len_is 4 (wf_key f) && (0 <? wf_h f) && (-999 <=? wf_exp f) && (wf_exp f <=? 9999)
+  && len_is 14 (wf_prec f) && len_is 14 (wf_var1 f)
+  && rect (wf_rows f) && (lenZ (wf_rows f) =? ny) && forallb (fun r => lenZ r =? nx) (wf_rows f)
+  (* h is the half quantum of the exponent pack2d chooses: 256 h = 2^NEXP in the unit *)
+  && ((rmax (wf_rows f) =? 0) || ((0 <? rmax (wf_rows f)) && (256 * wf_h f =? 2 ^ nexp_rule_fixed (rmax (wf_rows f))))).
+Definition wf_wperiod (nx ny : Z) (p : wperiod) : bool :=
+  len_is 10 (wp_time p) && (lenZ (wp_levels p) <=? 99)
+  && (108 + table_len (write_levels p) <=? 9999) && (108 + table_len (write_levels p) <=? nx * ny)
+  && forallb (fun l => len_is 6 (fst l) && (lenZ (snd l) <=? 99) && forallb (wf_wfield nx ny) (snd l))
+             (wp_levels p).
+Definition wf_winput (w : winput) : bool :=
+  len_is 2 (wi_grid w) && len_is 93 (wi_fixed w) && len_is 2 (wi_vsys2 w)
+  && (0 <=? wi_nx w) && (wi_nx w <=? 999) && (0 <=? wi_ny w) && (wi_ny w <=? 999)
+  && forallb (wf_wperiod (wi_nx w) (wi_ny w)) (wi_periods w).
